@@ -26,6 +26,9 @@ type c20Client struct {
 	V          int  `json:"v"`
 	Persistent bool `json:"persistent"`
 	MaxPkt     int  `json:"max_packet_size,omitempty"` // v5 only; 0 = none
+	// ShortExpiry (v5, persistent): Session Expiry Interval 1 s, so that a "sleep" while it is offline lets the
+	// session expire before the client comes back without Clean Start (the 20 s sweeper never runs in a case).
+	ShortExpiry bool `json:"short_expiry,omitempty"`
 }
 
 type c20Op struct {
@@ -51,6 +54,9 @@ func genC20(t *rapid.T) c20Scen {
 		c := c20Client{V: rapid.SampledFrom([]int{4, 5}).Draw(t, "v"), Persistent: rapid.IntRange(0, 2).Draw(t, "pers") != 0}
 		if c.V == 5 && rapid.IntRange(0, 2).Draw(t, "mp") == 0 {
 			c.MaxPkt = 90
+		}
+		if c.V == 5 && c.Persistent && rapid.IntRange(0, 3).Draw(t, "short") == 0 {
+			c.ShortExpiry = true
 		}
 		s.Clients = append(s.Clients, c)
 	}
@@ -81,6 +87,13 @@ func genC20(t *rapid.T) c20Scen {
 			s.Ops = append(s.Ops, c20Op{Op: "terminate", Client: cl})
 		default:
 			s.Ops = append(s.Ops, c20Op{Op: "check"})
+		}
+	}
+	// let the short-lived sessions expire while offline, then bring them back
+	for i, cl := range s.Clients {
+		if cl.ShortExpiry {
+			s.Ops = append(s.Ops, c20Op{Op: "offline", Client: i}, c20Op{Op: "sleep"}, c20Op{Op: "online", Client: i}, c20Op{Op: "check"})
+			break
 		}
 	}
 	return s
@@ -292,6 +305,9 @@ func runC20(s c20Scen, c *ev.Case) *ev.Violation {
 			p.Props = &mw.Props{}
 			if cs.Persistent {
 				p.Props.SessionExpiry = u32p(1000)
+				if cs.ShortExpiry {
+					p.Props.SessionExpiry = u32p(1)
+				}
 			}
 			if cs.MaxPkt != 0 {
 				p.Props.MaxPacketSize = u32p(uint32(cs.MaxPkt))
@@ -669,6 +685,10 @@ func runC20(s c20Scen, c *ev.Case) *ev.Violation {
 			endSession(op.Client)
 			sawInteresting = true
 			c.Label("terminate")
+		case "sleep":
+			time.Sleep(1300 * time.Millisecond)
+			c.Label("session_expired_while_offline")
+			sawInteresting = true
 		case "check":
 			if v := check(fmt.Sprintf("after step %d", i)); v != nil {
 				return v
